@@ -15,7 +15,7 @@ Driver for C31 (line protocol, `-` = empty byte string, all strings hex encoded)
                                    → `reject <status> <reason>` | `PANIC` | `h1 <response hex>` | `h2 sub=<hex> ext=0|1`
 * `reset`                          → `ok` (fresh server connection)
 * `send <code> <reason>`           → `tooLong|already|wrote <frame>` ` cc=<code>,<incoming>`
-* `recv <payload>`                 → `protoErr bad|utf8 w=<frame|none> cc=…` | `close <code> <text> w=<frame|none> cc=…`
+* `recv <payload>`                 → `protoErr bad|utf8|len w=<frame|none> cc=…` | `close <code> <text> w=<frame|none> cc=…`
 * `tclose <code> <reason>`         → `frames=<hex,…|-> cc=…`   (fresh transport, `websocketTransport.Close`)
 -/
 open CentrifugeVerif DriverLib
@@ -141,8 +141,9 @@ def step (c : Conn) (line : String) : Conn × String :=
       if p.length > 125 then (c, "bad-op") else
       let (c', r, w) := recvClose c p
       let s := match r with
-        | .protoErr true => "protoErr bad"
-        | .protoErr false => "protoErr utf8"
+        | .protoErr .badCode => "protoErr bad"
+        | .protoErr .badUtf8 => "protoErr utf8"
+        | .protoErr .badLength => "protoErr len"
         | .closeError code text => s!"close {code} {hex text}"
       (c', s!"{s} w={showW w} {showCC c'}")
     | none => (c, "bad-op")
